@@ -392,7 +392,7 @@ func runC07Session(items []c07Item, cut int, stepwise, gatesFirst bool, closeOut
 func c07Judge(c *wk.Ctx, res *c07Result, wit map[string]any) {
 	switch res.monitor.Outcome {
 	case "inconclusive":
-		c.Inconclusive(fmt.Sprintf("%v: watchdog fired; running: %v", wit["script"], res.monitor.Verdict.RunningDescr))
+		c.Inconclusive(fmt.Sprintf("%v: watchdog fired; running: %v", wit["script"], res.monitor.Verdict.RunningDescr) + snapSummary(res.monitor.Snap))
 		return
 	case "deadlock":
 		var blocked []string
